@@ -69,7 +69,7 @@ def plan_st(draw, tier):
     if draw(st.integers(0, 9)) == 0:
         # one training call with thousands of rows per arm (the batch tiled): paths that only open up for large calls
         i = draw(st.sampled_from([k for k, op in enumerate(ops_) if op[0] in ("fit", "partial_fit")]))
-        ops_[i] = [ops_[i][0] + "_tiled", ops_[i][1], ops_[i][2], ops_[i][3], draw(st.sampled_from([600, 1500, 4200]))]
+        ops_[i] = [ops_[i][0] + "_tiled", ops_[i][1], ops_[i][2], ops_[i][3], draw(st.sampled_from([600, 1500, 4200, 9000]))]
     m = draw(st.integers(1, 6))
     q = draw(gen.contexts_st(m, h.d, h.grid))
     if scale and draw(st.booleans()):
@@ -205,7 +205,9 @@ def evaluate(plan, ctx):
                     ok = True
             else:
                 want = mean[i]
-                bound = 6.0 * alpha * sig[i] + 1e-9 * max(1.0, abs(mean[i]), ymax)
+                # (the centre itself carries the rounding of the library's explicit inverse: same condition-aware
+                # tolerance as for the other two policies)
+                bound = 6.0 * alpha * sig[i] + tol
                 ok = abs(g - want) <= bound
                 clause = "lints_centre"
                 if not ok and lib_bonus_known is not None and D2 in ctx.active \
